@@ -274,7 +274,7 @@ class Renderer:
         for f in ext.get("funcs", []):
             body.append("")
             body += self.func(dict(f, module="util"), imports)
-        return "import pipelog\nimport pipehelp\n" + "\n".join(body) + "\n"
+        return "import pipelog\nimport pipehelp\nimport dds\n" + "\n".join(body) + "\n"
 
     def files(self):
         out = {}
